@@ -147,14 +147,14 @@ namespace Clipper2Lib {
   {
     int error_code = 0;
     CheckPrecisionRange(precision, error_code);
-    if (!delta) return paths;
     if (error_code) return PathsD();
     const double scale = std::pow(10, precision);
-    ClipperOffset clip_offset(miter_limit, arc_tolerance * scale);
-    clip_offset.AddPaths(ScalePaths<int64_t,double>(paths, scale, error_code), jt, et);
+    Paths64 scaled = ScalePaths<int64_t,double>(paths, scale, error_code);
     if (error_code) return PathsD();
-    Paths64 solution;
-    clip_offset.Execute(delta * scale, solution);
+    // nb: a zero delta returns the paths rounded to the given precision,
+    // just like every other delta (and every other PathsD function)
+    Paths64 solution = InflatePaths(scaled, delta * scale,
+      jt, et, miter_limit, arc_tolerance * scale);
     return ScalePaths<double, int64_t>(solution, 1 / scale, error_code);
   }
 
